@@ -13,7 +13,7 @@ import (
 	"github.com/simpleiot/simpleiot/data"
 )
 
-// C15 case: "<ops>|<export id>|<n|p>|<a|b>": the ops build a tree under a per-case group G on instance A;
+// C15 case: "<ops>|<export id>|<n|p>|<a|b|r>" (r: imported at "root" of a fresh instance, replacing its root node): the ops build a tree under a per-case group G on instance A;
 // the node is exported with client.ExportNodes (YAML), and imported with client.ImportNodes under a fresh
 // group H on instance A or B, with new ids (n) or preserved ids (p).
 // observation: "err <kind>" or the imported subtree below H in pre-order,
@@ -172,18 +172,32 @@ func c15Run(c string) string {
 	if where == "b" {
 		target = c15B
 	}
+	importAt := prefix + "H"
+	if where == "r" {
+		// the import target "root": the imported top node REPLACES the root node of a fresh instance (the old root is
+		// tombstoned by ImportNodes); observed as the walk from "root", the top's parent shown as H
+		fresh, err := busStart("R", "", nil)
+		if err != nil {
+			return "SETUP fresh instance"
+		}
+		defer fresh.stop()
+		target = fresh
+		importAt = "root"
+	}
 	c08Srv = target
-	if c08Send(prefix, grp("H")) != "ok" {
+	if where != "r" && c08Send(prefix, grp("H")) != "ok" {
 		return "SETUP H"
 	}
 	y, err := client.ExportNodes(c15A.nc, c06ID(prefix, expID))
 	if err != nil {
 		return "err export"
 	}
-	err = client.ImportNodes(target.nc, prefix+"H", y, "imp", mode == "p")
+	err = client.ImportNodes(target.nc, importAt, y, "imp", mode == "p")
 	retire := func() {
 		_ = client.SendEdgePoints(c15A.nc, prefix+"G", "R", data.Points{{Type: data.PointTypeTombstone, Value: 1, Time: time.Now()}}, true)
-		_ = client.SendEdgePoints(target.nc, prefix+"H", "R", data.Points{{Type: data.PointTypeTombstone, Value: 1, Time: time.Now()}}, true)
+		if where != "r" {
+			_ = client.SendEdgePoints(target.nc, prefix+"H", "R", data.Points{{Type: data.PointTypeTombstone, Value: 1, Time: time.Now()}}, true)
+		}
 	}
 	defer retire()
 	if err != nil {
@@ -201,8 +215,22 @@ func c15Run(c string) string {
 		return "err other " + strings.ReplaceAll(e, " ", "_")
 	}
 	var nodes []c15Node
-	if err := c15Walk(target.nc, prefix+"H", 0, &nodes); err != nil {
+	if err := c15Walk(target.nc, importAt, 0, &nodes); err != nil {
 		return "err walk"
+	}
+	if where == "r" {
+		for i := range nodes {
+			if nodes[i].d == 0 && nodes[i].parent == "root" {
+				nodes[i].parent = prefix + "H"
+			}
+		}
+		// the walk from "root" follows the instance's CURRENT root only; the replaced root must be gone
+		// (ImportNodes tombstones it): if it is still there it is shown as one more top-level node
+		if old, err := client.GetNodes(target.nc, "all", "R", "", false); err == nil {
+			for _, o := range old {
+				nodes = append(nodes, c15Node{0, o.ID, o.Type, o.Parent, nil, nil})
+			}
+		}
 	}
 	return c15Dump(nodes, prefix, mode == "n")
 }
@@ -281,7 +309,11 @@ func c15Gen(r *rand.Rand, n int, tier string) []string {
 		if len(ids) > 1 && r.Intn(4) == 0 {
 			exp = ids[1]
 		}
-		out = append(out, strings.Join(ops, ";")+"|"+hxs(exp)+"|"+pick(r, []string{"n", "n", "p"})+"|"+pick(r, []string{"a", "b"}))
+		where := pick(r, []string{"a", "b"})
+		if i%8 == 7 {
+			where = "r" // import target "root" on a fresh instance
+		}
+		out = append(out, strings.Join(ops, ";")+"|"+hxs(exp)+"|"+pick(r, []string{"n", "n", "p"})+"|"+where)
 	}
 	return out
 }
